@@ -172,12 +172,11 @@ fn check_costs(src: &str, costs: &[u8]) -> Result<(), String> {
             if m < u16::MAX as u64 && got as u64 != m { return Err(format!("min_sentence_cost(rule {}) is {} but the cheapest derivable string costs {}", r, got, m)); }
         }
     }
-    if !productive { return Ok(()); }
-    // maximum: judged only when every token costs something and no rule derives just itself
+    // maximum: judged only when every rule derives a sentence, every token costs something and no rule derives just itself
     // (then: unbounded iff a recursive rule is reachable)
     let positive = tc.iter().all(|c| *c > 0);
     let selfderiving = crate::c07::cyclic(&grm);
-    if positive && !selfderiving {
+    if productive && positive && !selfderiving {
         // finite maxima over the acyclic part
         let mut mx: Vec<Option<u64>> = vec![None; nr];
         let unb: Vec<bool> = (0..nr).map(|r| rf.reach[r][r] || (0..nr).any(|q| rf.reach[r][q] && rf.reach[q][q])).collect();
@@ -201,8 +200,9 @@ fn check_costs(src: &str, costs: &[u8]) -> Result<(), String> {
             else if let Some(m) = mx[r] { if m < u16::MAX as u64 && got.map(|x| x as u64) != Some(m) { return Err(format!("max_sentence_cost(rule {}) is {:?} but the dearest derivable string costs {}", r, got, m)); } }
         }
     }
-    // sentences: judged when every token costs something and no rule derives just itself (otherwise a cheapest
-    // production can lead back to its own rule at no cost and there are infinitely many minimal sentences)
+    // sentences: judged for every rule that derives a sentence (also when other rules of the grammar derive none), when
+    // every token costs something and no rule derives just itself (otherwise a cheapest production can lead back to its
+    // own rule at no cost and there are infinitely many minimal sentences)
     if !positive || selfderiving { return Ok(()); }
     for r in 0..nr {
         let m = match rmin[r] { Some(m) if m < 40 => m, _ => continue };
@@ -273,7 +273,7 @@ const EXTRA: &[&str] = &[
 ];
 
 pub fn search(unit: &str, _tag: &str, tier: &str) -> Option<Value> {
-    if unit == "c17_costs" || unit == "c17_maxcost" { return search_costs(tier); }
+    if unit == "c17_costs" || unit == "c17_maxcost" || unit == "c17_sentence" { return search_costs(tier); }
     let what = match unit { "c17_firsts" => "firsts", "c17_follows" => "follows", "c17_haspath" => "haspath", _ => "all" };
     for g in EXTRA.iter().chain(grms::FIXED.iter()) {
         let o = run(g, what);
